@@ -21,6 +21,39 @@ CHECKS = {
         technique="Lean 4 proof over executable model + differential correspondence with the real classes + Lean-checked dual certificates",
         ref="5/C07",
     ),
+    "C17": dict(
+        text="Theorems (Lean 4, induction over the history, any length, any per-step dimension): the sliding detector's metric/dof are the "
+             "sums of the NIS values/dimensions of the last min(w,k) steps (deque invariant); the fading detector's metric is (1+d)*sum d^j q_(k-j) "
+             "(closed form proved) with dof = mean dimension*(1+d)/(1-d); a maneuver is declared iff metric >= bound(dof); nis(c*nu)=c^2 nis(nu), "
+             "nis >= 0 for PSD inverse covariance, and scaling the latest innovation by c >= 1 never undoes a detection (all three detectors). "
+             "Tied to the code by feeding the real detector objects random histories and capturing (metric, alpha, dof) through their test= hook.",
+        note=BASE_TB + "chi2.isf is an oracle bound; numpy inv is compared with exact rational inverses to 1e-8; decisions within 1e-7 of the bound are skipped.",
+        technique="Lean 4 proof (induction over histories) + differential correspondence with the real detectors",
+        ref="5/C17",
+    ),
+    "C18": dict(
+        text="Theorems (Lean 4): SMM and GPB1 weights are non-negative and sum to one after every update including the all-underflow reset; Bayes' rule "
+             "when the evidence has not underflowed; mixing-matrix columns sum to one and mode probabilities stay valid; pruning always leaves a "
+             "survivor of positive weight, renormalises to a valid vector (also when every weight is below threshold and model 0 is exactly 0) and "
+             "removes exactly the below-threshold models otherwise; an SMM step that closes leaves exactly one model; the mixture covariance is "
+             "symmetric PSD; hand-back with one survivor is that model. Tied to the code by running the real StaticMultipleModel/GPB1 objects on "
+             "scripted member filters (2-30 models, underflow patterns) against the model.",
+        note=BASE_TB + "Gaussian likelihood values and the chi-square gate bound are oracle inputs computed independently by the harness; member filters are scripted stand-ins.",
+        technique="Lean 4 proof over executable model + differential correspondence with the real adaptive filters",
+        ref="5/C18",
+    ),
+    "C16": dict(
+        text="Theorems (Lean 4, over the rationals with the code's extracted PI/TWOPI): wrapAngle2Pi equals floor-mod with range [0,2pi); "
+             "wrapAngleNegPiPi and residual have range (-pi,pi]; residual is invariant under whole turns of either argument, congruent to a-b and "
+             "the unique such representative (wrap-point independence); vecResiduals = vecWrapNeg(a-b), turn-invariant, range [-pi,pi); the "
+             "measurement update is turn-invariant and invariant under any permutation of the stacked measurement (matrix algebra). Tied to the code "
+             "by exact-rational differential runs of the real helpers (seams, 1e6-turn offsets) and metamorphic runs of the real UKF on multi-step, "
+             "mixed radar/optical histories.",
+        note=BASE_TB + "sin/cos/arctan2 inside angularMean are library calls (metamorphic checks on the real function only). Float rounding at a wrap "
+             "boundary may select the other representative: counted as boundary skip.",
+        technique="Lean 4 proof (floor/mod algebra, matrix algebra) + exact differential correspondence + metamorphic runs of the real UKF",
+        ref="5/C16",
+    ),
 }
 
 PLANNED = {}
